@@ -61,7 +61,7 @@ def judge(cb, r, good, names, fault_in_range=None, err_h=None):
     return probs
 
 
-def build(w, n, coin='bitcoin', txs_fn=chains.std_txs, nfiles=2):
+def build(w, n, coin='bitcoin', txs_fn=chains.std_txs, nfiles=2, xor_key=None, plain=False):
     blocks = chains.std_chain(n, coin, txs_fn=txs_fn)
     d = datadir.DataDir(w.sub('dd'), coin)
     offs = []
@@ -70,7 +70,7 @@ def build(w, n, coin='bitcoin', txs_fn=chains.std_txs, nfiles=2):
         offs.append((h % nfiles, off))
         d.record(b['hdr'], h, datadir.ACTIVE, len(b['txs']), h % nfiles, off)
     d.core_extras()
-    d.write()
+    d.write(xor_key=xor_key, plain=plain)
     d.block_offs = offs
     return d, blocks
 
@@ -85,7 +85,10 @@ def main(ck, tier, w):
     ck.level = 'model_checking'
     rng = random.Random(seed)
     n = 6
-    d, blocks = build(w, n)
+    d, blocks = build(w, n, plain=True)
+    # the same chain obfuscated: every input fault below is injected into both (what is missing from a file is missing, whatever
+    # the bytes that are there mean)
+    dxor, _ = build(w, n, xor_key=bytes.fromhex('a1b2c3d4e5f60718'))
     # one undisturbed run per callback (also warms the index so that LevelDB's own files are in their final form)
     good = {}
     for cb in FILECB:
@@ -128,10 +131,12 @@ def main(ck, tier, w):
                 for c in (cuts if cb == 'csvdump' or not quick else cuts[:3]):
                     cases.append((cb, h, s, 'truncated', c))
 
+    cases = [c + (False,) for c in cases] + [c + (True,) for c in cases if c[2] == 0 and (c[0] == 'csvdump' or c[3] != 'truncated' or not quick)]
+
     def infault(c):
-        cb, h, s, kind, cut = c
+        cb, h, s, kind, cut, xored = c
         dd = w.sub('fd')
-        shutil.copytree(d.path, dd)
+        shutil.copytree(dxor.path if xored else d.path, dd, symlinks=False)
         fno, off = d.block_offs[h]
         p = os.path.join(dd, 'blk%05d.dat' % fno)
         first_bad = h
@@ -167,10 +172,10 @@ def main(ck, tier, w):
         return c, probs, r
     for c, probs, r in chains.pmap(infault, cases):
         ck.evals()
-        ck.distinct(('in',) + c[:4] + ((c[4],) if c[0] == 'csvdump' else ()))
+        ck.distinct(('in',) + c[:4] + ((c[4],) if c[0] == 'csvdump' else ()) + (c[5],))
         if probs:
-            ck.violation('input fault %s at height %d (%s, start %d, cut %s): %s' % (c[3], c[1], c[0], c[2], c[4], '; '.join(probs)),
-                         {'fault': {'callback': c[0], 'height': c[1], 'start': c[2], 'kind': c[3], 'cut': c[4]}, 'observed': r.brief(), 'tags': []})
+            ck.violation('input fault %s at height %d (%s, start %d, cut %s, %s directory): %s' % (c[3], c[1], c[0], c[2], c[4], 'XOR-obfuscated' if c[5] else 'plain', '; '.join(probs)),
+                         {'fault': {'callback': c[0], 'height': c[1], 'start': c[2], 'kind': c[3], 'cut': c[4], 'xor': c[5]}, 'observed': r.brief(), 'tags': []})
     ck.sample({'input_fault': {'callback': 'csvdump', 'height': 3, 'kind': 'truncated', 'cut_at_byte': cases[-1][4]}})
 
     # ---- output faults: file size limit ----------------------------------------------------------
